@@ -391,8 +391,10 @@ def generate(scratch, gen, universe, outdir, registry=None, extra_files=None, re
         cmd += ["-registry", registry]
     if resources:
         cmd += ["-resources", resources]
-    run(cmd, timeout=120)
     target = os.path.join(outdir, "gen")
+    if gen == "v2":
+        cmd += ["-customdir", target]
+    run(cmd, timeout=120)
     if extra_files:
         for rel, content in extra_files.items():
             p = os.path.join(target, rel)
